@@ -564,6 +564,9 @@ func fieldReaders(eng *Engine, pkg, typ, field string) []string {
 						if s, ok := r.(*ssa.Store); ok && s.Addr == val {
 							continue
 						}
+						if _, ok := r.(*ssa.DebugRef); ok {
+							continue
+						}
 						read = true
 					}
 				}
